@@ -13,12 +13,21 @@ import (
 )
 
 // copyXAttrs requires xeh to be non-nil
-func copyXAttrs(dst, src string, xeh XAttrErrorHandler) error {
+// posixACLAccess is the attribute that holds an entry's access ACL; setting
+// it rewrites the permission bits of the entry.
+const posixACLAccess = "system.posix_acl_access"
+
+func copyXAttrs(dst, src string, xeh XAttrErrorHandler, modeRequested bool) error {
 	xattrKeys, err := sysx.LListxattr(src)
 	if err != nil {
 		return xeh(dst, src, "", errors.Wrapf(err, "failed to list xattrs on %s", src))
 	}
 	for _, xattr := range xattrKeys {
+		if modeRequested && xattr == posixACLAccess {
+			// the caller asked for a mode of its own: the source's access
+			// ACL would replace it (the attributes are set after the chmod)
+			continue
+		}
 		// an error the handler tolerates concerns this attribute only: the
 		// remaining ones are still copied
 		data, err := sysx.LGetxattr(src, xattr)
